@@ -81,6 +81,11 @@ def gen_case(rng, tier, damaged, single_ok=True):
         enc = ["tool", rng.choice(TOOL_ROUTES[version])]
     else:
         enc = ["ref", rng.choice(REF_VARIANTS[version])]
+    if 0.06 <= c < 0.08 and tree["layout"] not in ("large-pieces", "many-pieces", "utf8-hash-multi"):
+        # a v1 metafile from another client with pieces SMALLER than 16 KiB (BEP 3 sets no minimum; only v2 does)
+        version, exp = 1, rng.choice([12, 13, 13])
+        enc = ["ref", rng.choice(REF_VARIANTS[1])]
+        tree["layout"] += "+small-pieces"
     case = {"tree": tree, "pl_exp": exp, "version": version, "encoder": enc,
             "via": rng.choice(["lib", "lib", "cli", "cli-check"]), "form": rng.choice(["root", "parent"]),
             "order_seed": rng.randrange(1 << 20), "damage": [],
